@@ -161,9 +161,14 @@ def stream_phi_grid(ctx):
     for (who, x), (v, info) in zip(meta, check_values(ctx, 'phi', vc, relbits=-30)):
         st.record({'x': x, 'who': who}, nontrivial=abs(x[0]) * 2.0 ** x[1] > 0.125)
         if v == 'differ':
-            st.disagree({'x': x, 'who': who}, info, None)
+            if who == 'scipy':
+                st.disagree({'x': x, 'who': who}, info, None)
             if who == 'engine':
-                ctx.violation('C01/value/engine/NormalCdf', 'bioNormalCdf is outside the enclosure of Phi', {'x': x}, info, None)
+                xv = x[0] * 2.0 ** x[1]
+                obs = info.get('observed') if isinstance(info, dict) else None
+                above = xv >= 6.0 and isinstance(obs, float) and obs > 1.0
+                ctx.violation('C01/known/normalcdf-upper-tail-above-one' if above else 'C01/value/engine/NormalCdf',
+                              'bioNormalCdf is outside the enclosure of Phi', {'x': x, 'value': xv}, info, None)
     if any(d['case']['who'] == 'scipy' for d in st.disagreements):
         ctx.stream_broken('phi_grid', 'the trusted interval extension of Phi disagrees with scipy: ' + str(st.disagreements[0])[:300])
 
